@@ -662,6 +662,45 @@ def array_equal(a, b, equal_nan=False):
   return mkbool(z3.And(*terms))
 
 
+def isclose(a, b, rtol=1e-05, atol=1e-08, equal_nan=False):
+  """NumPy: |a - b| <= atol + rtol * |b| for finite values, equality for
+  infinities, False for NaN (equal_nan unsupported)."""
+  if not is_sym(a) and not is_sym(b):
+    return _real_np.isclose(a, b, rtol=rtol, atol=atol, equal_nan=equal_nan)
+  if equal_nan:
+    raise Unsupported('isclose(equal_nan=True)')
+  aa = a if isinstance(a, SymArray) else SymArray.from_numpy(_real_np.asarray(a))
+  bb = b if isinstance(b, SymArray) else SymArray.from_numpy(_real_np.asarray(b))
+  diff = unop('abs', binop('sub', aa, bb))
+  tol = binop('add', atol, binop('mul', rtol, unop('abs', bb)))
+  within = cmpop('le', diff, tol)
+  same = cmpop('eq', aa, bb)
+  return binop('logical_or', within, same) if 'logical_or' in _BINOPS_BOOL \
+      else _bool_or(within, same)
+
+
+def _bool_or(x, y):
+  out = []
+  for p, q in zip(x.el, y.el):
+    if B.is_conc(p) and B.is_conc(q):
+      out.append(bool(p) or bool(q))
+    else:
+      pz = z3.BoolVal(bool(p)) if B.is_conc(p) else p
+      qz = z3.BoolVal(bool(q)) if B.is_conc(q) else q
+      out.append(z3.Or(pz, qz))
+  return SymArray(x.shape, _real_np.dtype(bool), out)
+
+
+_BINOPS_BOOL = ()
+
+
+def allclose(a, b, rtol=1e-05, atol=1e-08, equal_nan=False):
+  r = isclose(a, b, rtol=rtol, atol=atol, equal_nan=equal_nan)
+  if not isinstance(r, SymArray):
+    return bool(_real_np.all(r))
+  return all_(r)
+
+
 def _truthy(dt, x):
   """z3 Bool: element is non-zero (NumPy truthiness)."""
   if B.is_bool(dt):
@@ -913,6 +952,7 @@ _SHIM = {
     'squeeze': squeeze, 'zeros_like': zeros_like, 'ones_like': ones_like,
     'min': amin, 'max': amax, 'amin': amin, 'amax': amax, 'mean': mean,
     'sum': sum_, 'array_equal': array_equal, 'array': array,
+    'isclose': isclose, 'allclose': allclose,
     'asarray': asarray, 'frombuffer': frombuffer, 'pad': pad,
     'nan_to_num': nan_to_num, 'median': median, 'shape': shape, 'ndim': ndim,
     'all': all_, 'any': any_, 'append': append, 'concatenate': concatenate,
